@@ -1,1 +1,281 @@
-// placeholder
+//! RefCodec — independently written codecs (DESIGN §3.5): mutation words, predicate bytes
+//! (documented table in `predicate/encode.rs`), a postcard subset for `Solution`, hex helpers.
+
+use super::graph::PredSpec;
+
+pub type Mutation = (Vec<i64>, Vec<i64>);
+
+pub fn encode_mutation(m: &Mutation, out: &mut Vec<i64>) {
+    out.push(m.0.len() as i64);
+    out.extend_from_slice(&m.0);
+    out.push(m.1.len() as i64);
+    out.extend_from_slice(&m.1);
+}
+
+pub fn encode_mutations(ms: &[Mutation]) -> Vec<i64> {
+    let mut out = vec![ms.len() as i64];
+    for m in ms {
+        encode_mutation(m, &mut out);
+    }
+    out
+}
+
+/// Strict decoder of one mutation from the start of `ws`: returns the mutation and the words consumed.
+pub fn decode_mutation_prefix(ws: &[i64]) -> Option<(Mutation, usize)> {
+    let klen = *ws.first()?;
+    if klen < 0 {
+        return None;
+    }
+    let klen = klen as usize;
+    let key = ws.get(1..1usize.checked_add(klen)?)?.to_vec();
+    let vlen = *ws.get(1 + klen)?;
+    if vlen < 0 {
+        return None;
+    }
+    let vlen = vlen as usize;
+    let vstart = 2 + klen;
+    let value = ws.get(vstart..vstart.checked_add(vlen)?)?.to_vec();
+    Some(((key, value), vstart + vlen))
+}
+
+/// Canonical list decoding: `[n, m_1, …, m_n]` and nothing else.
+pub fn decode_mutations_canonical(ws: &[i64]) -> Option<Vec<Mutation>> {
+    let n = *ws.first()?;
+    if n < 0 {
+        return None;
+    }
+    let mut out = Vec::new();
+    let mut i = 1usize;
+    for _ in 0..n {
+        let (m, used) = decode_mutation_prefix(ws.get(i..)?)?;
+        out.push(m);
+        i += used;
+    }
+    if i != ws.len() {
+        return None;
+    }
+    Some(out)
+}
+
+/// Is this word string a canonical mutation list, or unambiguously invalid for *every* reasonable decoder
+/// (empty, negative count, a negative length or a length running past the end while walking from word 1)?
+/// Returns Some(true) canonical, Some(false) unambiguously invalid, None = ambiguous (count disagrees
+/// with the number of well-formed mutations).
+pub fn mutation_list_class(ws: &[i64]) -> Option<bool> {
+    if decode_mutations_canonical(ws).is_some() {
+        return Some(true);
+    }
+    let Some(&n) = ws.first() else { return Some(false) };
+    if n < 0 {
+        return Some(false);
+    }
+    // Walk all mutations greedily from word 1; any malformed one makes every decoder fail,
+    // provided a count-honouring decoder would also reach it.
+    let mut i = 1usize;
+    let mut k = 0i64;
+    while i < ws.len() {
+        match decode_mutation_prefix(&ws[i..]) {
+            Some((_, used)) => {
+                i += used;
+                k += 1;
+            }
+            None => {
+                // malformed mutation number k (0-based): a decoder honouring the count reaches it iff k < n
+                return if k < n { Some(false) } else { None };
+            }
+        }
+    }
+    // all well-formed but the count differs
+    if k != n {
+        None
+    } else {
+        Some(true)
+    }
+}
+
+// ---------------------------------------------------------------- predicate bytes
+
+/// Documented layout: u16 BE node count, nodes (u16 BE edge_start ++ 32 address bytes), u16 BE edge count, edges (u16 BE).
+pub fn encode_predicate(nodes: &[(u16, [u8; 32])], edges: &[u16]) -> Vec<u8> {
+    let mut out = Vec::with_capacity(4 + nodes.len() * 34 + edges.len() * 2);
+    out.push((nodes.len() >> 8) as u8);
+    out.push(nodes.len() as u8);
+    for (es, addr) in nodes {
+        out.push((es >> 8) as u8);
+        out.push(*es as u8);
+        out.extend_from_slice(addr);
+    }
+    out.push((edges.len() >> 8) as u8);
+    out.push(edges.len() as u8);
+    for e in edges {
+        out.push((e >> 8) as u8);
+        out.push(*e as u8);
+    }
+    out
+}
+
+/// Strict prefix decoder: the predicate and the number of bytes it occupies.
+pub fn decode_predicate_prefix(b: &[u8]) -> Option<(Vec<(u16, [u8; 32])>, Vec<u16>, usize)> {
+    let be = |i: usize| -> Option<u16> { Some(((*b.get(i)? as u16) << 8) | *b.get(i + 1)? as u16) };
+    let n = be(0)? as usize;
+    let mut nodes = Vec::with_capacity(n.min(2000));
+    let mut i = 2;
+    for _ in 0..n {
+        let es = be(i)?;
+        let addr: [u8; 32] = b.get(i + 2..i + 34)?.try_into().ok()?;
+        nodes.push((es, addr));
+        i += 34;
+    }
+    let m = be(i)? as usize;
+    i += 2;
+    let mut edges = Vec::with_capacity(m.min(2000));
+    for _ in 0..m {
+        edges.push(be(i)?);
+        i += 2;
+    }
+    Some((nodes, edges, i))
+}
+
+pub fn pred_spec_nodes(p: &PredSpec, prog_addr: &[[u8; 32]]) -> Vec<(u16, [u8; 32])> {
+    p.nodes.iter().map(|n| (n.edge_start, prog_addr[n.prog])).collect()
+}
+
+// ---------------------------------------------------------------- postcard subset
+
+pub fn varint_u(mut v: u64, out: &mut Vec<u8>) {
+    loop {
+        let b = (v & 0x7f) as u8;
+        v >>= 7;
+        if v == 0 {
+            out.push(b);
+            break;
+        } else {
+            out.push(b | 0x80);
+        }
+    }
+}
+
+pub fn varint_i(v: i64, out: &mut Vec<u8>) {
+    // zig-zag
+    let z = ((v << 1) ^ (v >> 63)) as u64;
+    varint_u(z, out);
+}
+
+fn pc_words(ws: &[i64], out: &mut Vec<u8>) {
+    varint_u(ws.len() as u64, out);
+    for w in ws {
+        varint_i(*w, out);
+    }
+}
+
+fn pc_bytes32(b: &[u8; 32], out: &mut Vec<u8>) {
+    // binary serde of hash::serialize: a byte slice = length prefix + bytes
+    varint_u(32, out);
+    out.extend_from_slice(b);
+}
+
+/// postcard(Solution): predicate_to_solve{contract, predicate}, predicate_data: Vec<Vec<i64>>, state_mutations: Vec<{key,value}>
+pub fn postcard_solution(contract: &[u8; 32], predicate: &[u8; 32], data: &[Vec<i64>], mutations: &[Mutation]) -> Vec<u8> {
+    let mut out = Vec::new();
+    pc_bytes32(contract, &mut out);
+    pc_bytes32(predicate, &mut out);
+    varint_u(data.len() as u64, &mut out);
+    for d in data {
+        pc_words(d, &mut out);
+    }
+    varint_u(mutations.len() as u64, &mut out);
+    for (k, v) in mutations {
+        pc_words(k, &mut out);
+        pc_words(v, &mut out);
+    }
+    out
+}
+
+pub struct Reader<'a> {
+    pub b: &'a [u8],
+    pub i: usize,
+}
+
+impl<'a> Reader<'a> {
+    pub fn varint_u(&mut self) -> Option<u64> {
+        let mut v: u64 = 0;
+        let mut shift = 0;
+        loop {
+            let byte = *self.b.get(self.i)?;
+            self.i += 1;
+            if shift >= 64 {
+                return None;
+            }
+            v |= ((byte & 0x7f) as u64) << shift;
+            if byte & 0x80 == 0 {
+                return Some(v);
+            }
+            shift += 7;
+        }
+    }
+    pub fn varint_i(&mut self) -> Option<i64> {
+        let z = self.varint_u()?;
+        Some(((z >> 1) as i64) ^ -((z & 1) as i64))
+    }
+    pub fn words(&mut self) -> Option<Vec<i64>> {
+        let n = self.varint_u()? as usize;
+        let mut v = Vec::new();
+        for _ in 0..n {
+            v.push(self.varint_i()?);
+        }
+        Some(v)
+    }
+    pub fn bytes32(&mut self) -> Option<[u8; 32]> {
+        if self.varint_u()? != 32 {
+            return None;
+        }
+        let s = self.b.get(self.i..self.i + 32)?;
+        self.i += 32;
+        s.try_into().ok()
+    }
+}
+
+/// Inverse of `postcard_solution` (injectivity witness).
+#[allow(clippy::type_complexity)]
+pub fn unpostcard_solution(b: &[u8]) -> Option<([u8; 32], [u8; 32], Vec<Vec<i64>>, Vec<Mutation>)> {
+    let mut r = Reader { b, i: 0 };
+    let c = r.bytes32()?;
+    let p = r.bytes32()?;
+    let nd = r.varint_u()? as usize;
+    let mut data = Vec::new();
+    for _ in 0..nd {
+        data.push(r.words()?);
+    }
+    let nm = r.varint_u()? as usize;
+    let mut ms = Vec::new();
+    for _ in 0..nm {
+        let k = r.words()?;
+        let v = r.words()?;
+        ms.push((k, v));
+    }
+    if r.i != b.len() {
+        return None;
+    }
+    Some((c, p, data, ms))
+}
+
+pub fn hex_upper(b: &[u8]) -> String {
+    let mut s = String::with_capacity(b.len() * 2);
+    for x in b {
+        s.push_str(&format!("{x:02X}"));
+    }
+    s
+}
+
+pub fn hex_lower(b: &[u8]) -> String {
+    let mut s = String::with_capacity(b.len() * 2);
+    for x in b {
+        s.push_str(&format!("{x:02x}"));
+    }
+    s
+}
+
+pub fn sha256(b: &[u8]) -> [u8; 32] {
+    use sha2::Digest;
+    sha2::Sha256::digest(b).into()
+}
